@@ -2515,12 +2515,15 @@ func (f *VFSFile) pollReplicaClient(ctx context.Context) error {
 	maxTXID1Snapshot := f.maxTXID1
 	f.mu.Unlock()
 
-	maxTXID0, combined, newCommit, truncate, err := f.pollLevel(ctx, 0, pos.TXID, baseCommit)
+	maxTXID0, combined, newCommit, truncate, err := f.pollLevel(ctx, 0, pos.TXID, baseCommit, 0)
 	if err != nil {
 		return fmt.Errorf("poll L0: %w", err)
 	}
 
-	maxTXID1, idx1, commit1, truncate1, err := f.pollLevel(ctx, 1, maxTXID1Snapshot, newCommit)
+	// Level-1 files that end at or before the level-0 position hold nothing new:
+	// every page in them is already indexed from level 0, possibly in a newer
+	// version, so only files reaching beyond that position are applied.
+	maxTXID1, idx1, commit1, truncate1, err := f.pollLevel(ctx, 1, maxTXID1Snapshot, newCommit, maxTXID0)
 	if err != nil {
 		return fmt.Errorf("poll L1: %w", err)
 	}
@@ -2614,7 +2617,8 @@ func (f *VFSFile) pollReplicaClient(ctx context.Context) error {
 // pollLevel fetches LTX files for a specific level and returns the highest TXID seen,
 // any index updates, the commit value of the last file read (baseCommit if none),
 // and the smallest size a shrink cut the database to while reading them (0 if none).
-func (f *VFSFile) pollLevel(ctx context.Context, level int, prevMaxTXID ltx.TXID, baseCommit uint32) (ltx.TXID, map[uint32]ltx.PageIndexElem, uint32, uint32, error) {
+// Files whose MaxTXID is at or below coveredTXID only advance the returned TXID.
+func (f *VFSFile) pollLevel(ctx context.Context, level int, prevMaxTXID ltx.TXID, baseCommit uint32, coveredTXID ltx.TXID) (ltx.TXID, map[uint32]ltx.PageIndexElem, uint32, uint32, error) {
 	itr, err := f.client.LTXFiles(ctx, level, prevMaxTXID+1, false)
 	if err != nil {
 		return prevMaxTXID, nil, baseCommit, 0, fmt.Errorf("ltx files: %w", err)
@@ -2641,6 +2645,11 @@ func (f *VFSFile) pollLevel(ctx context.Context, level int, prevMaxTXID ltx.TXID
 		}
 
 		f.logger.Debug("new ltx file", "level", info.Level, "min", info.MinTXID, "max", info.MaxTXID)
+
+		if info.MaxTXID <= coveredTXID {
+			maxTXID = info.MaxTXID
+			continue
+		}
 
 		idx, err := FetchPageIndex(ctx, f.client, info)
 		if err != nil {
